@@ -254,7 +254,12 @@ def unit_frame(U):
             for n in ("a", "b"):
                 ctx.assume(z3.Int(n + ".start") <= z3.Int(n + ".end"))
             ctx.stash["conn"] = conn
-            call(it, db, ctx)
+            try:
+                call(it, db, ctx)
+            except Undecided as u:
+                # what the method did BEFORE the engine gave up is still known: a write issued on this (feasible) path prefix
+                # violates the clause whatever follows; without one the path stays undecided
+                ctx.stash["undecided"] = str(u)
 
         def replay(m, name=name):
             return _native_frame(name)
@@ -265,6 +270,8 @@ def unit_frame(U):
             cls = IM.classify([e for e in p.ctx.effects if e[0] in ("execute", "executemany", "executescript")])
             writes = [c for c in cls if c.kind not in ("select", "noeffect")]
             commits = [e for e in p.ctx.effects if e[0] == "commit"]
+            if p.ctx.stash.get("undecided") and not writes and not commits:
+                raise Undecided(p.ctx.stash["undecided"])
             U.prove("C19.frame.%s#p%d" % (name, p.index), "%s issues only SELECT statements and never commits (features, relations, directives, dialect, stored counters unchanged)" % name,
                     [], z3.BoolVal(not writes and not commits), {}, replay=replay)
 
@@ -283,6 +290,10 @@ def _native_frame(name):
             import sqlite3
             c = sqlite3.connect(fn)
             out = {t: list(c.execute("SELECT * FROM %s" % t)) for t in ("features", "relations", "directives", "meta", "autoincrements", "duplicates")}
+            out["sqlite_master"] = sorted(map(tuple, c.execute("SELECT type, name, tbl_name, sql FROM sqlite_master")))      # tables / indexes that a query left behind
+            for (t,) in list(c.execute("SELECT name FROM sqlite_master WHERE type = 'table'")):
+                if t not in out and not t.startswith("sqlite_"):
+                    out[t] = list(c.execute('SELECT * FROM "%s"' % t.replace('"', '""')))
             c.close()
             return out
         before = snap()
@@ -291,7 +302,9 @@ def _native_frame(name):
             "getitem": lambda: db["g"], "all_features": lambda: list(db.all_features(order_by="start")), "features_of_type": lambda: list(db.features_of_type("exon")),
             "count_features_of_type": lambda: db.count_features_of_type("exon"), "featuretypes": lambda: list(db.featuretypes()), "seqids": lambda: list(db.seqids()),
             "children": lambda: list(db.children("g")), "parents": lambda: list(db.parents("e1")), "iter_by_parent_childs": lambda: list(db.iter_by_parent_childs()),
-            "region": lambda: list(db.region("c:1-50")), "interfeatures": lambda: list(db.interfeatures(db.children("t", featuretype="exon", order_by="start"))),
+            "region": lambda: [list(db.region("c:1-50")), list(db.region(seqid="c", start=1, end=2 ** 29, completely_within=True)), list(db.region(seqid="c", start=1, end=300000000, completely_within=True)),
+                                list(db.region(seqid="c", start=1, end=300000000)), list(db.region(seqid="c", start=20)), list(db.region(seqid="c", end=10 ** 9, completely_within=True)),
+                                list(db.region(seqid="c", start=5, end=200000000, strand="+", featuretype="exon", completely_within=True))], "interfeatures": lambda: list(db.interfeatures(db.children("t", featuretype="exon", order_by="start"))),
             "create_introns": lambda: list(db.create_introns()), "create_splice_sites": lambda: list(db.create_splice_sites()),
             "merge": lambda: list(db.merge(db.children("t", featuretype="exon", order_by="start"))), "children_bp": lambda: db.children_bp("t", merge=True),
             "bed12": lambda: db.bed12("t"),
@@ -302,7 +315,7 @@ def _native_frame(name):
             return {"inputs": name, "observed": "raised %r" % (e,), "violates": None}
         del db
         after = snap()
-        return {"inputs": name, "expected": "tables unchanged", "observed": {k: after[k] for k in after if after[k] != before[k]}, "violates": after != before}
+        return {"inputs": name, "expected": "tables unchanged", "observed": {k: after[k] for k in after if after[k] != before.get(k)}, "violates": after != before}
     finally:
         shutil.rmtree(d, ignore_errors=True)
 
